@@ -25,6 +25,7 @@ func c43Histories(tier string) [][]BlockSpec {
 		{Absent: []string{"N2"}},
 		// governance lowers a population limit below the current population (the entities stay, only new ones are refused)
 		blk(tx("gov_param", "G", "key", "application/MaxApplications", "value", `"1"`)),
+		blk(tx("send", "A1", "to", "NEW", "amount", "1")), // an account holding the smallest possible balance
 	}
 	depth := 2
 	if tier == "thorough" {
@@ -67,7 +68,7 @@ func cmpMaps(kind string, a, b map[string]string) string {
 func init() {
 	register(&Check{ID: "C43", QuickBud: 110 * time.Second, ThorBud: 20 * time.Minute,
 		Run: func(c *ev.Ctx) {
-			c.Rule = "for every history of up to D blocks over a 10-item menu (transfers to new accounts, node stake/unstake, app stake/unstake, DAO burn, parameter changes incl. a population limit lowered below the population, missed signatures) on the real application: export the application state at the final height (ExportAppState), start a NEW application from that export (InitChain in a fresh worker process) and compare accounts and balances (incl. module accounts), total supply, node records, application records, all parameters and pending claims of the two nodes. Non-trivial = history with at least one block"
+			c.Rule = "for every history of up to D blocks over an 11-item menu (transfers to new accounts incl. one of a single uPOKT, node stake/unstake, app stake/unstake, DAO burn, parameter changes incl. a population limit lowered below the population, missed signatures) on the real application: export the application state at the final height (ExportAppState), start a NEW application from that export (InitChain in a fresh worker process) and compare accounts and balances (incl. module accounts), total supply, node records, application records, all parameters and pending claims of the two nodes. Non-trivial = history with at least one block"
 			c.Assume("signing-info details that the export intentionally resets are not compared; the compared node fields are status, jailed, tokens, chains, url, output, delegators, key, unstaking time")
 			p := getPool()
 			hs := c43Histories(c.Tier)
@@ -133,7 +134,26 @@ func init() {
 						}
 						var diffs []string
 						ba, bb := obsStrMap(a, "balances"), obsStrMap(b, "balances")
-						if d := cmpMaps("balance", ba, bb); d != "" {
+						// accounts other than the DAO module account first: a difference there is never part of the recorded
+						// DAO finding, whatever happens to the DAO balance in the same export
+						oa, ob := map[string]string{}, map[string]string{}
+						// (an account without coins and a missing account are the same balance: the export leaves empty
+						// accounts out and they are created again on first use)
+						for k, v := range ba {
+							if k != "module:dao" && v != "0" && v != "" {
+								oa[k] = v
+							}
+						}
+						for k, v := range bb {
+							if k != "module:dao" && v != "0" && v != "" {
+								ob[k] = v
+							}
+						}
+						if d := cmpMaps("balance", oa, ob); d != "" {
+							c.Report("reimport/balances", fmt.Sprintf("exported after %s: %s", hist, d), rep)
+							diffs = append(diffs, d)
+						}
+						if d := cmpMaps("balance", map[string]string{"module:dao": ba["module:dao"]}, map[string]string{"module:dao": bb["module:dao"]}); d != "" {
 							cls := "balances"
 							if strings.Contains(d, "module:dao") && !strings.Contains(d, "balance A") {
 								cls = "dao-balance"
